@@ -164,7 +164,7 @@ def err_enum(ex):
     return {"KeyError": "key", "AssertionError": "assertion", "TypeError": "type", "IndexError": "index"}.get(n, "other:" + n)
 
 
-def execute_on(env, key, engine, st, params, dml, want_rows=True):
+def execute_on(env, key, engine, st, params, dml, want_rows=True, page=None):
     """-> dict(status, rows, snap, cap)"""
     cap = env.caps[key]
     del cap[:]
@@ -172,11 +172,15 @@ def execute_on(env, key, engine, st, params, dml, want_rows=True):
     with engine.connect() as c:
         tx = c.begin()
         try:
+            if page:
+                c = c.execution_options(insertmanyvalues_page_size=page)
             r = c.execute(st, params) if params is not None else c.execute(st)
             out["rows"] = [tuple(x) for x in r.fetchall()] if (want_rows and r.returns_rows) else None
             if dml and want_rows:
+                ncap = len(cap)
                 out["snap"] = [tuple(x) for x in c.exec_driver_sql("select id, x, y, s from t order by id").fetchall()]
-                del cap[-1]
+                out["snap"] += [tuple(x) for x in c.exec_driver_sql("select * from wt order by id").fetchall()]
+                del cap[ncap:]
             out["status"] = "ok"
         except Exception as ex:  # noqa
             out["status"] = "err " + err_enum(ex)
@@ -373,7 +377,7 @@ def check_spec(ctx, env, sp, corr, fakes=True, record=True):
     except Exception as ex:  # generator produced something sqlalchemy rejects at construction
         ctx.count("build-rejected:" + type(ex).__name__)
         return 0
-    dml = sp["kind"] in ("insert", "insertmany", "update", "delete", "insert_select")
+    dml = sp["kind"] in ("insert", "insertmany", "insertmany_esc", "update", "delete", "insert_select")
     many = isinstance(params, list)
     case = {"spec": sp}
 
@@ -387,7 +391,7 @@ def check_spec(ctx, env, sp, corr, fakes=True, record=True):
     # ---- SQLite, six paramstyles
     results = {}
     for style in lb.STYLES:
-        results[style] = execute_on(env, style, env.engines[style], st, params, dml)
+        results[style] = execute_on(env, style, env.engines[style], st, params, dml, page=sp.get("page"))
     statuses = {s: r["status"] for s, r in results.items()}
     ref = results["qmark"]
     if len(set(statuses.values())) > 1:
@@ -404,6 +408,21 @@ def check_spec(ctx, env, sp, corr, fakes=True, record=True):
             if r["rows"] != ref["rows"] or r.get("snap") != ref.get("snap"):
                 viol("rows-differ:" + style, "rows under %s differ from qmark: %s vs %s" % (style, str(r["rows"])[:300], str(ref["rows"])[:300]))
                 break
+    if sp["kind"] == "insertmany_esc" and ref["status"] == "ok":
+        # independent oracle: what is stored / returned equals the parameter sets
+        rows_in = sp["rows"][:1] if sp.get("single") else sp["rows"]
+        colorder = ["id"] + list(lb.ESC_COLS) + ["plain"]
+        want = sorted(tuple(r.get(c) for c in colorder) for r in rows_in)
+        for style in lb.STYLES:
+            got = sorted(x for x in (results[style].get("snap") or []) if len(x) == len(colorder))
+            if got != want:
+                viol("executemany-stored-rows:" + style, "stored rows under %s %s differ from the parameter sets %s" % (style, got[:4], want[:4]))
+                break
+            if sp.get("returning") and results[style]["rows"] is not None:
+                wr = sorted(tuple(r[c] for c in ["id"] + sp["cols"]) for r in rows_in)
+                if sorted(results[style]["rows"]) != wr:
+                    viol("executemany-returning:" + style, "RETURNING rows under %s %s differ from the parameter sets %s" % (style, sorted(results[style]["rows"])[:4], wr[:4]))
+                    break
     # literal rendering reference (independent of every placeholder mechanism)
     literal_sql = None if many else literal_reference(ctx, env, st, env.engines["qmark"].dialect)
     if literal_sql is not None and ref["status"] == "ok":
